@@ -39,7 +39,7 @@ W_CONS = {'alloc_put': 30, 'alloc_post': 18, 'reshape': 10, 'alloc_del': 12,
 
 SEQ = {
     'C01': dict(models=['MC_alloc'], weights=W_ALLOC,
-                scenarios=['reshape_moves_class', 'drop_class_in_use', 'joint_overflow'],
+                scenarios=['reshape_moves_class', 'drop_class_in_use', 'joint_overflow', 'reshape_tightens_units'],
                 quick=(36, 45), thorough=(900, 60)),
     'C04': dict(models=['MC_alloc'], weights=W_ALLOC,
                 scenarios=['f9_unknown_provider_new_consumer',
@@ -60,7 +60,7 @@ SEQ = {
     'C11': dict(models=['MC_forest', 'MC_alloc'], weights={}, read_after_write=True,
                 scenarios=['reshape_moves_class', 'consumer_lifecycle',
                            'drop_class_in_use', 'names_lifecycle',
-                           'subtree_moves', 'joint_overflow', 'usage_views', 'f7_empty_write_unknown_consumer',
+                           'subtree_moves', 'joint_overflow', 'usage_views', 'reshape_tightens_units', 'f7_empty_write_unknown_consumer',
                            'f9_unknown_provider_new_consumer'],
                 replay=dict(quick=(4, 30, 2), thorough=(40, 60, 12)), gabbi=True,
                 quick=(48, 35), thorough=(1500, 50)),
@@ -88,6 +88,7 @@ CONCUR_MON = {
     'C08': ('C08_FinalRefIntegrity', 'Escaped'),
     'C04': ('C04_ErrorsNoEffect',),
     'C09': ('C09_FinalForest',),
+    'C12': ('C12_FinalConsumers',),
 }
 
 FAULT = {
@@ -252,7 +253,7 @@ def run_seq(prop, tier, seed, model=True):
     if prop == 'C04':
         # a request rejected because it lost a race must not have committed anything either
         n2 = 0
-        for ck in ('C05', 'C06'):
+        for ck in ('C05', 'C06', 'MIX'):
             v2, k2, n = concur_supplement('C04', ck, tier, seed)
             violations.extend(v2)
             known.extend(k2)
@@ -269,6 +270,20 @@ def run_seq(prop, tier, seed, model=True):
         violations.extend(v2)
         known.extend(k2)
         extra_cov['interleavings_of_removals_with_new_uses'] = n2
+        # allocation rows and the consumer record under racing writes / DELETE of one consumer
+        v2, k2, n2 = concur_supplement('C08', 'C06', tier, seed)
+        violations.extend(v2)
+        known.extend(k2)
+        extra_cov['interleavings_of_writes_to_one_consumer'] = n2
+    if prop == 'C12':
+        # a consumer exists exactly while it holds allocations: also after racing writes / DELETE of one consumer
+        n3 = 0
+        for ck in ('C06', 'MIX'):
+            v2, k2, n2 = concur_supplement('C12', ck, tier, seed)
+            violations.extend(v2)
+            known.extend(k2)
+            n3 += n2
+        extra_cov['interleavings_of_writes_to_one_consumer'] = n3
     if prop == 'C19':
         # character level: crafted and mutated names sent to the four creating operations (NameRules.tla)
         from pv import nameprobe
